@@ -17,7 +17,37 @@ claim("C08", "proof",
       "interprocedural taint/ownership analysis on SSA + SSA pattern rules on copyConfig/NewConfig + nondeterminism-source census",
       "DESIGN.md 5/C08")
 
-for p in ["C01","C03","C04","C05","C06","C09","C10","C11","C12","C13","C14","C15","C16","C17","C19","C20"]:
+claim("C01", "other",
+      "Decides the clause 'the error is the very one the fetcher or operator returned' completely (value-origin analysis of every error reaching a return of the evaluation entry points), plus structural necessary conditions of the semantics: errors are tested before values are used, name resolution order const > variable > undefined variable, node-kind invariants at every writer, every kind has a handler in every dispatch, flag bit groups disjoint, and/or polarity tables agree for every alias. Does not decide the value semantics of the stack machine (jump/stack tables are run-time data).",
+      "SSA value-origin analysis + gate/dominance rules + writer census of node fields + table extraction",
+      "DESIGN.md 5/C01")
+
+claim("C03", "other",
+      "Decides where the observable effects of evaluation can occur: census of every VariableFetcher.Get and operator call in Eval with the arm (node kind) that dominates it, the node it addresses relative to the single loop counter, exclusivity and at-most-counts per step, operand order into the fast operator, the gates of the cond jump and of the short-circuit jump, and the if/fi closures. Does not decide that the compile-time jump targets skip exactly the decided operands.",
+      "call-site census on SSA with edge-dominance facts over node-kind tests + loop-shape recovery",
+      "DESIGN.md 5/C03")
+
+claim("C04", "other",
+      "Decides the three gates a definite TryEval answer rests on: operators never see a DNE operand (the only operator application in TryEval's own code is behind contains(params, DNE) == false, plus the cond arm), shortcut polarity of the operator proxy, fetch only under Cached == true for the same keys; and that the polarity tables used by the climbing loop agree with the compiler's. Does not decide the upward propagation itself.",
+      "call-site census + edge-dominance facts (with phi-&& expansion) + table extraction",
+      "DESIGN.md 5/C04")
+
+claim("C05", "other",
+      "Decides the ordering and 'DNE is not an error' clauses: shortcuts are reached independently of DNE poisoning, the not-cached edge yields (DNE, nil), TryEvalBool maps DNE to ErrDNE before asserting bool, the fast-operator arm goes through both proxies. Does not decide Kleene completeness of the propagation.",
+      "edge-dominance facts over the proxy functions + SSA shape rules",
+      "DESIGN.md 5/C05")
+
+claim("C10", "other",
+      "Decides who may call an operator at compile time and under which gate (census of dynamic Operator calls in the compile closure, tied to isStatelessOp's answer), what isStatelessOp can approve, that the tree is rewritten only on success or by the gated and/or absorption, that only constant children are folded, and that optimizers have no failure channel. Does not decide that a folded value equals the run-time value.",
+      "call-site census over the VTA compile closure + edge-dominance facts + loop-shape rules + table extraction",
+      "DESIGN.md 5/C10")
+
+claim("C16", "other",
+      "Decides the structural core of every sentence: the reordering pass only stores cost and sorts children under isBoolOpNode of the same node (permutation only), the sort is stable, the comparator is strict less on cost of the sorted slice, the cost dataflow is monotone in configured costs (float +, math.Max, phi only) with per-name entries taking precedence, and the and/or predicates cover exactly the aliases of the table. Does not decide NaN costs or concrete numbers.",
+      "effect analysis of the reordering closure + SSA dataflow over float operations + comparator shape + table extraction",
+      "DESIGN.md 5/C16")
+
+for p in ["C06","C09","C11","C12","C13","C14","C15","C17","C19","C20"]:
     na(p, PENDING)
 
 na("C02", "semantic equivalence of two programs over all inputs and 16 optimisation subsets is a run-time relation on values computed by folding and re-derived jump tables; no structural clause is a necessary condition on its own (its structural parts are decided under C08, C10, C16); an honest not-applicable for static analysis")
